@@ -317,9 +317,9 @@ class C01(Prop):
     def generate(self, rng, tier, shard, nshards):
         big = tier == 'thorough'
         g = Gen(rng, self.pool)
-        n_tx = (6000 if big else 420) // nshards + 1
-        n_hdr = (1500 if big else 96) // nshards + 1
-        n_blk = (1200 if big else 96) // nshards + 1
+        n_tx = (16000 if big else 420) // nshards + 1
+        n_hdr = (4000 if big else 96) // nshards + 1
+        n_blk = (3000 if big else 96) // nshards + 1
         if shard == 0:
             yield from self.fixed_cases()
         yield from self.maxsize_probes(rng, shard, nshards)
@@ -437,13 +437,16 @@ class C01(Prop):
             if kind == 'tx':
                 yield from self.tx_cases(rng, o, enc, big)
             elif kind == 'hdr':
-                yield from self.hdr_cases(rng, o, enc)
+                yield from self.hdr_cases(rng, o, enc, big)
             else:
                 yield from self.blk_cases(rng, o, enc, big)
 
-    def ext_cases(self, rng, kinds, enc, src, other=b''):
+    def ext_cases(self, rng, kinds, enc, src, other=b'', big=True):
         for n in (1, 2, 33):
-            for ext in {rng.randbytes(n), b'\x00' * n, (other + b'\x00' * n)[:n]}:
+            exts = {rng.randbytes(n), b'\x00' * n, (other + b'\x00' * n)[:n]}
+            if not big:     # quick tier: random surplus for every length, zero surplus for 1, a second object for 33
+                exts = {rng.randbytes(n)} | ({b'\x00'} if n == 1 else set()) | ({(other + b'\x00' * n)[:n]} if n == 33 else set())
+            for ext in sorted(exts):
                 for kd in kinds:
                     for pad in (0, 1):
                         c = mk('c01.de.' + kd, (enc + ext).hex(), pad, tag='extend+%d' % n)
@@ -499,18 +502,18 @@ class C01(Prop):
             c['src'] = s
             yield c
         if L <= 70000:
-            yield from self.ext_cases(rng, ('tx', 'txm') if L <= 600 else ('tx',), enc, s, enc)
+            yield from self.ext_cases(rng, ('tx', 'txm') if L <= 600 else ('tx',), enc, s, enc, big)
         if L <= 4000:
             yield from self.mutants(rng, 'tx', enc, edges, 6 if big else 3)
 
-    def hdr_cases(self, rng, h, enc):
+    def hdr_cases(self, rng, h, enc, big=True):
         s = txfmt.show_header(h)
         yield mk('c01.ser.hdr', s, tag='ser')
         yield mk('c01.spec.hdr', s, tag='spec')
         for pad in (0, 1):
             yield mk('c01.de.hdr', enc.hex(), pad, tag='roundtrip')
         yield mk('c01.cuts.hdr', enc.hex(), '*', tag='all-prefixes')
-        yield from self.ext_cases(rng, ('hdr',), enc, s, enc)
+        yield from self.ext_cases(rng, ('hdr',), enc, s, enc, big)
         yield from self.mutants(rng, 'hdr', enc, [0, 4, 36, 68, 72, 76, 80], 1)
 
     def blk_cases(self, rng, b, enc, big):
@@ -539,7 +542,7 @@ class C01(Prop):
             pos = pick_positions(rng, edges, L, 400 if big else 160)
             yield mk('c01.cuts.blk', enc.hex(), ','.join(map(str, pos)), tag='edge-prefixes')
         if L <= 70000:
-            yield from self.ext_cases(rng, ('blk',), enc, s, enc[80:])
+            yield from self.ext_cases(rng, ('blk',), enc, s, enc[80:], big)
         if L <= 4000:
             yield from self.mutants(rng, 'blk', enc, edges, 4 if big else 2)
 
